@@ -534,6 +534,8 @@ class Sym:
                     return f_not(x.f)
                 if isinstance(x, Opq) and x.kind == "find" and y.value == -1:
                     return atom(f"notfound({x.key})")
+                if isinstance(x, Opq) and x.kind == "find" and isinstance(y.value, int) and not isinstance(y.value, bool) and y.value >= 0:
+                    return f_and([atom(f"{x.key} == {y.value}"), f_not(atom(f"notfound({x.key})"))])
                 if isinstance(x, Opq) and x.kind == "len" and x.meta and isinstance(x.meta[0], Opq) and x.meta[0].kind == "split" and y.value in (1, 2) and not isinstance(y.value, bool):
                     one = atom(f"notfound({x.meta[0].key})")
                     return one if y.value == 1 else f_not(one)
@@ -848,6 +850,12 @@ class Sym:
         return BoolV(f_and(parts), deps)
 
     def compare(self, a: Val, op: ast.cmpop, b: Val, st: State) -> Formula:
+        if isinstance(op, (ast.Lt, ast.LtE, ast.Gt, ast.GtE)):
+            # orderings distribute over conditional values (`pos = text.rfind(t) if ... else -1; if pos < 0:`)
+            if isinstance(a, Phi):
+                return f_or([f_and([c, self.compare(x, op, b, st)]) for c, x in a.alts])
+            if isinstance(b, Phi):
+                return f_or([f_and([c, self.compare(a, op, x, st)]) for c, x in b.alts])
         if isinstance(op, ast.Is):
             if isinstance(b, Const) and b.value is None:
                 return self.is_none(a, st)
@@ -881,17 +889,23 @@ class Sym:
                     if (isinstance(o, ast.Lt) and n == 1) or (isinstance(o, ast.LtE) and n == 0):
                         return f_not(t)
                 if isinstance(x, Opq) and x.kind == "find":
+                    # str.find / rfind yield -1 ("not found") or a position >= 0; every ordering against an integer is
+                    # normalised to `x > m`, which for m >= 0 holds only when the needle was found
                     nf = atom(f"notfound({x.key})")
-                    if (isinstance(o, ast.Lt) and n == 0) or (isinstance(o, ast.LtE) and n == -1):
-                        return nf
-                    if (isinstance(o, ast.GtE) and n == 0) or (isinstance(o, ast.Gt) and n == -1):
-                        return f_not(nf)
+                    m, positive = {ast.Gt: (n, True), ast.GtE: (n - 1, True), ast.Lt: (n - 1, False), ast.LtE: (n, False)}[type(o)]
+                    g = TRUE if m < -1 else (f_not(nf) if m == -1 else f_and([atom(f"{x.key} Gt {m}"), f_not(nf)]))
+                    return g if positive else f_not(g)
                 if isinstance(x, Const) and isinstance(x.value, (int, float)):
                     try:
                         return ("const", bool({ast.Lt: x.value < n, ast.LtE: x.value <= n, ast.Gt: x.value > n, ast.GtE: x.value >= n}[type(o)]))
                     except Exception:  # noqa: BLE001
                         pass
-        return atom(f"{key(a)} {type(op).__name__} {key(b)}")
+        free = atom(f"{key(a)} {type(op).__name__} {key(b)}")
+        # `a < b` between two find-results: b is a position (>= 0 > -1 is the only way to exceed a value >= -1)
+        lo, hi = (a, b) if isinstance(op, ast.Lt) else ((b, a) if isinstance(op, ast.Gt) else (None, None))
+        if isinstance(lo, Opq) and isinstance(hi, Opq) and lo.kind == "find" and hi.kind == "find":
+            return f_and([free, f_not(atom(f"notfound({hi.key})"))])
+        return free
 
     def _e_JoinedStr(self, e, st, ctx):
         parts = []
@@ -933,6 +947,10 @@ class Sym:
         if isinstance(a, Coll) or isinstance(b, Coll):
             items = (self.exact_items(a, st) or []) + (self.exact_items(b, st) or []) if isinstance(e.op, (ast.Add, ast.BitOr)) else []
             return self.new_coll(st, "list" if isinstance(e.op, ast.Add) else "set", items, exact=False, deps=deps)
+        if isinstance(e.op, (ast.Add, ast.Sub)) and isinstance(a, Opq) and a.kind in ("find", "offset") and isinstance(b, Const) and isinstance(b.value, int) and not isinstance(b.value, bool):
+            # a search position moved by a constant: (position, displacement)
+            base_pos, off = (a, 0) if a.kind == "find" else a.meta
+            return Opq(f"({key(a)} {type(e.op).__name__} {key(b)})", deps, kind="offset", meta=(base_pos, off + (b.value if isinstance(e.op, ast.Add) else -b.value)))
         return Opq(f"({key(a)} {type(e.op).__name__} {key(b)})", deps)
 
     def _seq(self, e, st, ctx, kind):
@@ -1029,10 +1047,18 @@ class Sym:
         base = self.eval(e.value, st, ctx)
         if isinstance(e.slice, ast.Slice):
             deps = self.deps(base, st)
+            bounds, bvals = [], []
             for x in (e.slice.lower, e.slice.upper, e.slice.step):
-                if x is not None:
-                    deps |= self.deps(self.eval(x, st, ctx), st)
-            return Opq(f"{key(base)}[{norm(e.slice, 40)}]", deps, kind="slice")
+                bv = self.eval(x, st, ctx) if x is not None else None
+                bvals.append(bv)
+                if bv is not None:
+                    deps |= self.deps(bv, st)
+                bounds.append(key(bv) if bv is not None else "")
+            # keyed by the values of the bounds (not by the names of the variables that hold them)
+            res = Opq(f"{key(base)}[{':'.join(bounds).rstrip(':') or ':'}]", deps, kind="slice")
+            if not isinstance(base, Coll):
+                self.emit("slice", "[:]", bvals[:2], base, st, ctx, e, ("unknown",), res)
+            return res
         idx = self.eval(e.slice, st, ctx)
         return self.subscript(base, idx, st, ctx, e)
 
@@ -1467,6 +1493,8 @@ class Sym:
         if name == "bool" and len(args) == 1:
             return BoolV(self.truth(args[0], st), deps)
         if name == "len" and len(args) == 1:
+            if isinstance(args[0], Const) and isinstance(args[0].value, (str, bytes)):
+                return Const(len(args[0].value))
             items = self.exact_items(args[0], st)
             if items is not None and all(c == TRUE for _v, c in items):
                 return Const(len(items))
@@ -1506,6 +1534,12 @@ class Sym:
             return Opq(f"{name}({key(args[0])})", deps, kind="str")
         if name == "super":
             return Opq("<super>", kind="super")
+        if name in ("max", "min") and len(args) >= 2 and not kwargs:
+            if all(isinstance(a, Const) and isinstance(a.value, (int, float)) and not isinstance(a.value, bool) for a in args):
+                return Const((max if name == "max" else min)(a.value for a in args))
+            res = Opq(f"{name}({', '.join(key(a) for a in args)})", deps, kind=name, meta=tuple(args))
+            self.emit("call", name, args, None, st, ctx, e, ("b", "builtin", ()), res)
+            return res
         if name in ("max", "min", "abs", "sum", "zip", "enumerate", "range", "map", "filter", "iter", "next", "open", "print", "type", "id", "hash", "round", "divmod", "ord", "chr", "callable", "issubclass", "vars", "dir", "format"):
             res = Opq(f"{name}({', '.join(key(a) for a in args)})#{self.fresh() if name in ('open', 'next', 'iter') else ''}".rstrip("#"), deps, kind="call")
             self.emit("call", name, args, None, st, ctx, e, ("b", "builtin", ()), res)
@@ -1562,6 +1596,11 @@ class Sym:
         if attr in STR_SEARCH and args and (is_str or not self.classes_of(base, e.func.value, ctx)):
             res = Opq(f"{key(base)}.{attr}({', '.join(key(a) for a in args)})", bdeps, kind="find" if attr in ("find", "rfind") else "index", meta=(self.deps(args[0], st), self.deps(base, st)))
             self.emit("call", attr, args, base, st, ctx, e, t, res)
+            if attr in ("find", "rfind") and len(args) == 3 and isinstance(args[0], Const) and isinstance(args[0].value, str) and args[0].value:
+                # text.rfind(needle, 0, max(earlier - k, 0)): when the earlier search found nothing (-1) the range is empty and
+                # a non-empty needle is not found either.  (An unclamped `earlier - k` would be a negative = end-relative bound.)
+                for earlier in self._clamped_positions(args[2]):
+                    st.path.append(f_or([f_not(atom(f"notfound({earlier.key})")), atom(f"notfound({res.key})")]))
             return res
         if attr in ("search", "match", "fullmatch") and args and isinstance(base, Opq) and (base.key.startswith("re.compile(") or any(m[0] == "lib" and m[1].startswith("re.") for m in members(t))):
             res = Opq(f"{key(base)}.{attr}({key(args[0])})", bdeps, kind="search", meta=(self.deps(base, st), self.deps(args[0], st)))
@@ -1602,6 +1641,24 @@ class Sym:
             self.emit("mutate", attr, args, base, st, ctx, e, t)
             return Opq(f"{key(base)}.{attr}({', '.join(key(a) for a in args)})#{self.fresh()}", bdeps)
         return None
+
+    @staticmethod
+    def _clamped_positions(hi: Val) -> list[Opq]:
+        """Find-results p such that the bound `hi` is 0 whenever p is -1: hi = max(p + d, 0, <constants <= 0>) with d <= 1."""
+        if not (isinstance(hi, Opq) and hi.kind == "max" and any(isinstance(a, Const) and a.value == 0 and not isinstance(a.value, bool) for a in hi.meta)):
+            return []
+        out = []
+        for a in hi.meta:
+            if isinstance(a, Const):
+                if not (isinstance(a.value, int) and a.value <= 0):
+                    return []
+            elif isinstance(a, Opq) and a.kind == "find":
+                out.append(a)  # max(-1, 0) == 0
+            elif isinstance(a, Opq) and a.kind == "offset" and a.meta[1] <= 1:
+                out.append(a.meta[0])  # max(-1 + d, 0) == 0 for d <= 1
+            else:
+                return []
+        return out if len(out) == 1 else []
 
     def coll_method(self, c: Coll, attr: str, args, st: State, ctx, e, alldeps) -> Val:
         cs: CollState = st.store[key(c)]
